@@ -172,7 +172,7 @@ class T:
             return a[0]
         if k == 'user':
             d = a[0]
-            args = [x.rust() for x in a[1]] + [const_lit(c) for c in a[2]]
+            args = d.ordered_args([x.rust() for x in a[1]], [const_lit(c) for c in a[2]])
             path = '%s::%s' % (d.module, d.name) if d.module else d.name
             return path + ('<%s>' % ', '.join(args) if args else '')
         raise ValueError(k)
@@ -205,10 +205,10 @@ class T:
             d = a[0]
             if d.copy == 'zero':
                 return '&%s %s' % (lt, self.rust())
-            args = []
+            targs = []
             for (p, targ) in zip(d.tparams, a[1]):
-                args.append(targ.eps(lt) if d.role(p.name) == 'eps' else targ.rust())
-            args += [const_lit(c) for c in a[2]]
+                targs.append(targ.eps(lt) if d.role(p.name) == 'eps' else targ.rust())
+            args = d.ordered_args(targs, [const_lit(c) for c in a[2]])
             path = '%s::%s' % (d.module, d.name) if d.module else d.name
             return path + ('<%s>' % ', '.join(args) if args else '')
         raise ValueError(k)
@@ -276,7 +276,7 @@ class Variant:
 
 class Def:
     def __init__(self, name, kind, copy, variants, tparams=(), cparams=(), reprs=(), where=(), module='',
-                 derives=()):
+                 derives=(), order=None):
         self.name = name
         self.kind = kind            # 'struct' | 'enum'
         self.copy = copy            # 'zero' | 'deep' | 'none' (deep without attribute)
@@ -287,6 +287,20 @@ class Def:
         self.where = list(where)    # raw predicates, e.g. 'B: Clone'
         self.module = module
         self.derives = list(derives)
+        # declaration order of the generic parameters (names); default: types, then consts
+        self.order = list(order) if order else None
+
+    def param_order(self):
+        return self.order or ([p.name for p in self.tparams] + [c.name for c in self.cparams])
+
+    def ordered_args(self, targs, cargs):
+        """Interleave rendered type and const arguments in declaration order."""
+        m = {}
+        for p, a in zip(self.tparams, targs):
+            m[p.name] = a
+        for c, a in zip(self.cparams, cargs):
+            m[c.name] = a
+        return [m[n] for n in self.param_order()]
 
     def all_fields(self):
         return [f for v in self.variants for f in v.fields]
